@@ -520,7 +520,7 @@ macro_rules! trace_mod {
             return (w, alive);
         }
         let churn = profile == "churn";
-        let hk = if churn { rng.pick(&[0u8, 0, 3, 4, 2]) } else { rng.below(5) as u8 };
+        let hk = if churn { rng.pick(&[0u8, 0, 3, 4, 2, 5]) } else { rng.below(6) as u8 };
         let big = profile == "big" || (profile == "mix" && t % 7 == 3);
         let universe: u32 = if churn { 400 } else if big { 200 } else if t % 3 == 0 { 40 } else { 6 };
         let max0: usize = if churn { if rng.below(3) == 0 { e0 * 120 } else { usize::MAX } } else if big { match rng.below(3) { 0 => usize::MAX, 1 => e0 * 150, _ => e0 * 40 + 13 } } else {
